@@ -685,23 +685,48 @@ package fsm
 //@   ensures fresh(asType(result, *snapshot)) || fresh(asType(result, *checkpoint))
 //@   modifies nothing
 
-// dynamic dispatch to the two implementations (each verified on its own below): ASSUMED frames
+// dynamic dispatch to the two implementations: the interface contracts speak about "the recoverer's
+// state machine" whatever the format, and each implementation is proved to refine them
+//@ pure func rcFSM(rc Iface) *FSM = typeIs(rc, *snapshot) ? asType(rc, *snapshot).fsm : asType(rc, *checkpoint).fsm
+//@ pure func rcOK(rc Iface) bool = ((typeIs(rc, *snapshot) && asType(rc, *snapshot) != nil) || (typeIs(rc, *checkpoint) && asType(rc, *checkpoint) != nil)) && rcFSM(rc) != nil
 //@ iface fsm.snapshotRecoverer.prepare
-//@   assumed
-//@   modifies family(G_any_vP), family(G_any_vV)
+//@   params rc
+//@   results ctx, err
+//@   requires rcOK(rc) && rcFSM(rc).pebble.v != nil
+//@   ensures [C08.pit.prepare] err == nil && typeIs(rc, *snapshot) ==> typeIs(ctx, *snapshotContext) && asType(ctx, *snapshotContext) != nil && asType(ctx, *snapshotContext).Snapshot != nil && asType(ctx, *snapshotContext).Snapshot.vP == old(rcFSM(rc).pebble.v.vP) && asType(ctx, *snapshotContext).Snapshot.vV == old(rcFSM(rc).pebble.v.vV)
+//@   ensures [C08.pit.checkpoint] err == nil && typeIs(rc, *checkpoint) ==> typeIs(ctx, *checkpointContext) && asType(ctx, *checkpointContext) != nil && rcFSM(rc).pebble.v.ncheckpoint == old(rcFSM(rc).pebble.v.ncheckpoint) + 1 && rcFSM(rc).pebble.v.nflush == old(rcFSM(rc).pebble.v.nflush) + 1
+//@   modifies rcFSM(rc).pebble.v.vP, rcFSM(rc).pebble.v.vV, rcFSM(rc).pebble.v.ncheckpoint, rcFSM(rc).pebble.v.nflush
+//@ refines fsm.snapshotRecoverer.prepare by (*snapshot).prepare
+//@ refines fsm.snapshotRecoverer.prepare by (*checkpoint).prepare
 //@ iface fsm.snapshotRecoverer.getHeader
-//@   assumed
 //@   params rc
 //@   ensures (typeIs(rc, *snapshot) ==> result[6] == 0) && (typeIs(rc, *checkpoint) ==> result[6] == 1)
 //@   modifies nothing
+//@ refines fsm.snapshotRecoverer.getHeader by (*snapshot).getHeader
+//@ refines fsm.snapshotRecoverer.getHeader by (*checkpoint).getHeader
+// save: the context is what the same format's prepare returned (dragonboat hands it over unchanged)
 //@ iface fsm.snapshotRecoverer.save
-//@   assumed
 //@   params rc, ctx, w, stopc
-//@   modifies w.sdata, w.slen, w.nmsg, w.msg
+//@   results err
+//@   requires rcOK(rc) && rcFSM(rc).log != nil && rcFSM(rc).fs != nil && w != nil
+//@   requires typeIs(rc, *snapshot) ==> typeIs(ctx, *snapshotContext) && asType(ctx, *snapshotContext) != nil && asType(ctx, *snapshotContext).Snapshot != nil
+//@   requires typeIs(rc, *checkpoint) ==> typeIs(ctx, *checkpointContext) && asType(ctx, *checkpointContext) != nil
+//@   ensures [C08.save.all+C03] err == nil && typeIs(rc, *snapshot) ==> world.nset - old(world.nset) == cnt(asType(ctx, *snapshotContext).Snapshot.vP, bytes_empty(), Btop())
+//@   modifies world.nset, world.lastKey, world.lastVal, family(G_any_sdata), family(G_any_slen), family(G_any_nmsg), family(G_any_msg), family(G_any_rest), allfields(bytes.Buffer)
+//@ refines fsm.snapshotRecoverer.save by (*snapshot).save
+//@ refines fsm.snapshotRecoverer.save by (*checkpoint).save
+// recover: the crash-safety invariant of the data directory is kept, and the DB pointer is swapped
+// only once `current` durably names the new, opened directory - for either format
 //@ iface fsm.snapshotRecoverer.recover
-//@   assumed
 //@   params rc, r, stopc
-//@   modifies family(G_any_vHas), family(G_any_dHas), family(G_any_dCur), family(G_any_vCur), family(G_any_updName), family(G_any_opened), family(G_any_rest), family(G_any_syncedPath)
+//@   results er
+//@   requires rcOK(rc) && rcFSM(rc).fs != nil && rcFSM(rc).log != nil && rcFSM(rc).metrics != nil && r != nil && parentOf(rcFSM(rc).dirname) != rcFSM(rc).dirname
+//@   requires [inv] recoverable(rcFSM(rc).fs, rcFSM(rc).dirname) && (rcFSM(rc).fs.dCur[rcFSM(rc).dirname] != "" ==> rcFSM(rc).fs.vHas[pjoin(rcFSM(rc).dirname, rcFSM(rc).fs.dCur[rcFSM(rc).dirname])]) && rcFSM(rc).fs.vCur[rcFSM(rc).dirname] == rcFSM(rc).fs.dCur[rcFSM(rc).dirname] && rcFSM(rc).fs.dCur[rcFSM(rc).dirname] != "current.updating"
+//@   ensures [C08.install.recoverable] recoverable(rcFSM(rc).fs, rcFSM(rc).dirname)
+//@   ensures [C08.install.swap] rcFSM(rc).pebble.v != old(rcFSM(rc).pebble.v) ==> rcFSM(rc).fs.dCur[rcFSM(rc).dirname] == rcFSM(rc).fs.vCur[rcFSM(rc).dirname] && rcFSM(rc).fs.opened[pjoin(rcFSM(rc).dirname, rcFSM(rc).fs.dCur[rcFSM(rc).dirname])]
+//@   modifies rcFSM(rc).fs.vHas, rcFSM(rc).fs.dHas, rcFSM(rc).fs.dCur, rcFSM(rc).fs.vCur, rcFSM(rc).fs.updName, rcFSM(rc).fs.opened, rcFSM(rc).pebble.v, world.syncedPath, family(G_any_rest), family(G_any_sdata), family(G_any_slen), family(G_any_vP), family(G_any_vV)
+//@ refines fsm.snapshotRecoverer.recover by (*snapshot).recover
+//@ refines fsm.snapshotRecoverer.recover by (*checkpoint).recover
 
 // the header as it travels: the writer/reader remember the format byte of the header they carried
 //@ ghostfield any.fmtByte Int
@@ -718,20 +743,40 @@ package fsm
 //@   ensures err == nil ==> (*asType(data, *fsm.snapshotHeader))[6] == r.fmtByte && 0 <= r.fmtByte && r.fmtByte < 256
 //@   modifies elems(asType(data, *fsm.snapshotHeader)), r.rest
 
-// SaveSnapshot: the stream starts with a header naming the saver's own format, then that format's body
+// PrepareSnapshot: the configured format's prepare - a pinned view of the state as of now (snapshot
+// format) or a flushed checkpoint of it (checkpoint format)
+//@ func (*FSM).PrepareSnapshot
+//@   maypanic
+//@   results ctx, err
+//@   requires p != nil && p.pebble.v != nil
+//@   ensures [C08.pit.prepare] err == nil && p.recoveryType == 0 ==> typeIs(ctx, *snapshotContext) && asType(ctx, *snapshotContext) != nil && asType(ctx, *snapshotContext).Snapshot != nil && asType(ctx, *snapshotContext).Snapshot.vP == old(p.pebble.v.vP) && asType(ctx, *snapshotContext).Snapshot.vV == old(p.pebble.v.vV)
+//@   ensures [C08.pit.checkpoint] err == nil && p.recoveryType == 1 ==> typeIs(ctx, *checkpointContext) && asType(ctx, *checkpointContext) != nil && p.pebble.v.ncheckpoint == old(p.pebble.v.ncheckpoint) + 1
+//@   modifies p.pebble.v.vP, p.pebble.v.vV, p.pebble.v.ncheckpoint, p.pebble.v.nflush
+
+// SaveSnapshot: the stream starts with a header naming the saver's own format, then that format's
+// body; in the snapshot format every pair of the PREPARED view is handed to the SST writers.
+// The context is what PrepareSnapshot of the same format returned (dragonboat's protocol).
 //@ func (*FSM).SaveSnapshot
 //@   maypanic
-//@   requires p != nil && w != nil
+//@   requires p != nil && w != nil && p.log != nil && p.fs != nil
+//@   requires p.recoveryType == 0 ==> typeIs(ctx, *snapshotContext) && asType(ctx, *snapshotContext) != nil && asType(ctx, *snapshotContext).Snapshot != nil
+//@   requires p.recoveryType == 1 ==> typeIs(ctx, *checkpointContext) && asType(ctx, *checkpointContext) != nil
 //@   ensures [C08.save.header] result == nil ==> w.fmtByte == p.recoveryType
-//@   modifies w.fmtByte, w.sdata, w.slen, w.nmsg, w.msg
+//@   ensures [C08.save.all+C03] result == nil && p.recoveryType == 0 ==> world.nset - old(world.nset) == cnt(asType(ctx, *snapshotContext).Snapshot.vP, bytes_empty(), Btop())
+//@   modifies w.fmtByte, world.nset, world.lastKey, world.lastVal, family(G_any_sdata), family(G_any_slen), family(G_any_nmsg), family(G_any_msg), family(G_any_rest), allfields(bytes.Buffer)
 
 // RecoverFromSnapshot: the recoverer is chosen by the format byte of the STREAM's header, whatever
-// format this replica is configured to save in
+// format this replica is configured to save in; the install keeps the data directory recoverable
+// and swaps the DB only once `current` durably names the new, opened directory
 //@ func (*FSM).RecoverFromSnapshot
 //@   maypanic
-//@   requires p != nil && r != nil
+//@   results er
+//@   requires p != nil && r != nil && p.fs != nil && p.log != nil && p.metrics != nil && parentOf(p.dirname) != p.dirname
+//@   requires [inv] recoverable(p.fs, p.dirname) && (p.fs.dCur[p.dirname] != "" ==> p.fs.vHas[pjoin(p.dirname, p.fs.dCur[p.dirname])]) && p.fs.vCur[p.dirname] == p.fs.dCur[p.dirname] && p.fs.dCur[p.dirname] != "current.updating"
 //@   before fsm.snapshotRecoverer.recover assert [C08.dispatch] (r.fmtByte == 0 ==> typeIs(rc, *snapshot)) && (r.fmtByte == 1 ==> typeIs(rc, *checkpoint))
-//@   modifies family(G_any_vHas), family(G_any_dHas), family(G_any_dCur), family(G_any_vCur), family(G_any_updName), family(G_any_opened), family(G_any_rest), family(G_any_syncedPath)
+//@   ensures [C08.install.recoverable+C04] recoverable(p.fs, p.dirname)
+//@   ensures [C08.install.swap] p.pebble.v != old(p.pebble.v) ==> p.fs.dCur[p.dirname] == p.fs.vCur[p.dirname] && p.fs.opened[pjoin(p.dirname, p.fs.dCur[p.dirname])]
+//@   modifies p.fs.vHas, p.fs.dHas, p.fs.dCur, p.fs.vCur, p.fs.updName, p.fs.opened, p.pebble.v, world.syncedPath, family(G_any_rest), family(G_any_sdata), family(G_any_slen), family(G_any_vP), family(G_any_vV)
 
 // ---- snapshot format: prepare pins a pebble snapshot, save streams exactly that view
 
@@ -754,9 +799,20 @@ package fsm
 //@ func pebble.WriterOptions
 //@   assumed
 //@   modifies nothing
-//@ func writeLenDelimited
+// a length (not a header): the format byte the stream carried is untouched
+//@ func binary.Write<uint64>
 //@   assumed
-//@   modifies to.sdata, to.slen, to.nmsg, to.msg, to.fmtByte
+//@   params w, order, data
+//@   results err
+//@   modifies w.sdata, w.slen, w.nmsg, w.msg
+//@ iface fsm.lenReader.Len
+//@   assumed
+//@   ensures result >= 0
+//@   modifies nothing
+// writeLenDelimited: writes to `to` only, consumes `from`; the header's format byte stays
+//@ func writeLenDelimited
+//@   requires to != nil && from != nil
+//@   modifies to.sdata, to.slen, to.nmsg, to.msg, from.rest
 //@ func (*snapshotContext).Close
 //@   assumed
 //@   modifies nothing
@@ -780,7 +836,7 @@ package fsm
 //@   requires s != nil && s.fsm != nil && s.fsm.log != nil && w != nil && typeIs(ctx, *snapshotContext) && asType(ctx, *snapshotContext) != nil && asType(ctx, *snapshotContext).Snapshot != nil
 //@   before pebble.(*DB).NewIter assert [C08.save.pit+C03] false
 //@   ensures [C08.save.all+C03] err == nil ==> world.nset - old(world.nset) == cnt(asType(ctx, *snapshotContext).Snapshot.vP, bytes_empty(), Btop())
-//@   modifies world.nset, world.lastKey, world.lastVal, family(G_any_sdata), family(G_any_slen), w.nmsg, w.msg, w.fmtByte, allfields(bytes.Buffer)
+//@   modifies world.nset, world.lastKey, world.lastVal, family(G_any_sdata), family(G_any_slen), w.nmsg, w.msg, allfields(bytes.Buffer)
 //@   loop 0 invariant iter != nil && fresh(iter) && iter.bounded && iter.vP == asType(ctx, *snapshotContext).Snapshot.vP && iter.vV == asType(ctx, *snapshotContext).Snapshot.vV && iter.lo == bytes_empty() && iter.hi == Btop()
 //@   loop 0 invariant 0 <= iter.pos && iter.pos <= cnt(iter.vP, iter.lo, iter.hi) && iter.onKey == (iter.pos < cnt(iter.vP, iter.lo, iter.hi)) && (iter.onKey ==> iter.cur == nth(iter.vP, iter.lo, iter.hi, iter.pos))
 //@   loop 0 invariant world.nset - old(world.nset) == iter.pos && sstWriter != nil && memfile != nil && fresh(memfile)
@@ -1017,5 +1073,5 @@ package fsm
 //@   requires c != nil && c.fsm != nil && c.fsm.fs != nil && w != nil && typeIs(ctx, *checkpointContext) && asType(ctx, *checkpointContext) != nil
 //@   before pebble.(*DB).Checkpoint assert [C08.save.nocheckpoint] false
 //@   before pebble.(*DB).Flush assert [C08.save.noflush] false
-//@   modifies family(G_any_sdata), family(G_any_slen), family(G_any_nmsg), family(G_any_msg), family(G_any_rest), family(G_any_fmtByte)
+//@   modifies family(G_any_sdata), family(G_any_slen), family(G_any_nmsg), family(G_any_msg), family(G_any_rest)
 //@   loop 0 invariant tw != nil && -1 <= rangeindex && rangeindex < len(list) && c.fsm == old(c.fsm) && c.fsm.fs == old(c.fsm.fs)
